@@ -383,7 +383,7 @@ Section Partition.
         if negb (all_eq_nat (map (@length str) parts)) then Ok (Other, []) else
         match path_to_cats true pm (combine dirs parts) with
         | Ok c => Ok (Hive, c)
-        | VErr => res_map (fun c => (Drill, c)) (path_to_cats false pm (combine dirs parts))
+        | VErr => res_map (fun c => (Drill, c)) (path_to_cats false [] (combine dirs parts))   (* partition_meta=None: the levels are dir0, dir1, ... *)
         | OErr => OErr
         end
       end
@@ -432,7 +432,7 @@ Section Partition.
     let paths := map fst files in
     match paths_to_cats pm paths (dirs_order (dedup_str (map strip_tail paths))) with
     | Ok (Hive, c) => option_map (pair Hive) (read_files true pm c files)
-    | Ok (Drill, c) => option_map (pair Drill) (read_files false pm c files)
+    | Ok (Drill, c) => option_map (pair Drill) (read_files false [] c files)   (* ParquetFile.partition_meta is {} for drill *)
     | Ok (s, _) => Some (s, concat (map (fun f => map (fun r => ([], snd r)) (snd f)) files))
     | _ => None
     end.
